@@ -45,12 +45,13 @@ func (i *Ignore) load(rootGoitPath string) error {
 	scanner := bufio.NewScanner(f)
 	for scanner.Scan() {
 		text := scanner.Text()
+		// every character of an entry stands for itself, except '*' which matches anything:
+		// '*.c++' or 'lib(old)/' must not end up as a broken regular expression
 		var replacedText string
 		if directoryRegexp.MatchString(text) {
-			replacedText = fmt.Sprintf("%s.*", text)
+			replacedText = fmt.Sprintf("%s.*", regexp.QuoteMeta(text))
 		} else {
-			replacedText = strings.ReplaceAll(text, ".", `\.`)
-			replacedText = strings.ReplaceAll(replacedText, "*", ".*")
+			replacedText = strings.ReplaceAll(regexp.QuoteMeta(text), `\*`, ".*")
 		}
 		i.paths = append(i.paths, replacedText)
 	}
